@@ -35,7 +35,7 @@ type Task struct {
 	blocked string // what it waits for while not parked (diagnostics)
 	since   time.Time
 	kids    map[string]int
-	exited  bool
+	exited  atomic.Bool
 	adopted bool
 	budget  int // parallel mode: optional yields this task may still pass through
 	// Group names the simulated process instance this task belongs to (inherited
@@ -432,7 +432,7 @@ func (s *Sched) finish(t *Task) {
 		s.Logf("PANIC task=%s value=%v", t.Label, r)
 	}
 	s.mu.Lock()
-	t.exited = true
+	t.exited.Store(true)
 	delete(s.byGoid, t.goid)
 	s.mu.Unlock()
 	s.byGoidSync.Delete(t.goid)
@@ -443,7 +443,7 @@ func (s *Sched) finish(t *Task) {
 }
 
 // Exited reports whether a spawned task has returned (or panicked).
-func (t *Task) Exited() bool { return t.exited }
+func (t *Task) Exited() bool { return t.exited.Load() }
 
 func (s *Sched) park(t *Task, site string) {
 	if s.parkSoft(t, site) {
@@ -897,7 +897,7 @@ func (s *Sched) Blocked() []string {
 	defer s.mu.Unlock()
 	var out []string
 	for _, t := range s.tasks {
-		if t.exited {
+		if t.exited.Load() {
 			continue
 		}
 		if _, p := s.parked[t]; p {
